@@ -1270,8 +1270,8 @@ class Interp:
                 found, res = self._builtin_on_rec(fn.id, args)
                 if found:
                     return res
-            if fn.id == 'bool' and len(args) == 1 and isinstance(args[0], (Rec, PyModel)):
-                return self.truth(args[0]) if isinstance(args[0], Rec) else bool(args[0])
+            if fn.id == 'bool' and len(args) == 1 and isinstance(args[0], (Rec, PyModel, Ref)):
+                return self.truth(args[0]) if isinstance(args[0], (Rec, Ref)) else bool(args[0])
             for a_ in args:
                 if isinstance(a_, (Opaque, Ref, Rec)):
                     return Opaque(fn.id)
